@@ -130,7 +130,7 @@ def check(ctx):
             small, large, _ = rel
             sr = gs.xrender(u, small)
             return bool(re.search(r"OccupiedEntry::get\(" + re.escape(entry_r) + r"\)\.0$", sr)) and gs.xrender(u, large) == nr
-        ctx.guarded("update", "overwrite only when the stored backoff is earlier", s, pred,
+        gs.guarded(ctx, "update", "overwrite only when the stored backoff is earlier", s, pred,
                     "OccupiedEntry::insert is reached only via an edge proving stored.0 < (or <=) the new instant, the new instant being the value stored")
     for s in oi + vi:
         ni = new_instant(s)
@@ -306,7 +306,7 @@ def check(ctx):
         return (c[0] == "local" and c[1] == kl) if kl is not None else render(c) == render(gs.expand(hc, V))
     for s in h_rm_peer:
         e = hc.site_expr(s)
-        ctx.guarded("expiry", "per-peer removal only when keep is false", s, not_keep, "if !keep")
+        gs.guarded(ctx, "expiry", "per-peer removal only when keep is false", s, not_keep, "if !keep")
         # same key: the element's peer is removed from the element's topic map
         a0 = gs.xrender(hc, e[2][0])
         a1 = render(e[2][1])
@@ -324,9 +324,9 @@ def check(ctx):
                 k = c[3][1]
                 return (c[1], k, l) in (("Eq", 0, "true"), ("Ne", 0, "false"), ("Lt", 1, "true"), ("Le", 0, "true"), ("Gt", 0, "false"), ("Ge", 1, "false"))
             return False
-        ctx.guarded("expiry", "topic map dropped only when empty", s, empty_pred,
+        gs.guarded(ctx, "expiry", "topic map dropped only when empty", s, empty_pred,
                     "OccupiedEntry::remove (forgets every peer of the topic) only on an edge proving the inner map is empty")
-        ctx.guarded("expiry", "topic map dropped only while expiring an entry", s, not_keep, "if !keep")
+        gs.guarded(ctx, "expiry", "topic map dropped only while expiring an entry", s, not_keep, "if !keep")
         # no mutation of the inner map between the emptiness test and the drop is possible: the per-peer removal precedes the test
         tests = [bi for bi in hc.live if hc.switch_info(bi) and empty_pred(hc.switch_info(bi)[0], render(hc.switch_info(bi)[0]), "true")]
         ok = bool(tests) and all(hc.must_pass_nodes([0], [t], lib.bbs(h_rm_peer)) for t in tests) and \
@@ -455,7 +455,7 @@ def check(ctx):
         got = lib.count_range(hg, starts, [head], lib.bbs(pen), blocked_edges=inactive) if starts else None
         ctx.ob("graft", "backed-off GRAFT is penalised when scoring is active", got is not None and got[0] >= 1, s.loc(), "add_penalty on the refused path (scoring active): %s" % (got,))
         for p in pen:
-            ctx.guarded("graft", "penalty only for a running backoff", p, running, "add_penalty dominated by backoff_time > now")
+            gs.guarded(ctx, "graft", "penalty only for a running backoff", p, running, "add_penalty dominated by backoff_time > now")
 
     # ------------------------------------------------------------------ (6) cursor
     hw = hb.field_write_sites("heartbeat_index")
